@@ -2,6 +2,11 @@
 // contract of DESIGN.md section 3.2.
 verus! {
 
+/// the observable state of a hook (what contracts talk about)
+pub struct Obs<E> {
+    pub trace: Seq<Ev>, pub rely_st: St, pub failed: bool, pub last_err: Option<E>, pub relies: bool, pub rely_rel: Rel, pub accepts_replace: bool,
+}
+
 pub open spec fn hook_pre_c(failed: bool, relies: bool, rel: Rel, st: St, ev: Ev) -> bool {
     !failed && (relies ==> step_rel(rel, st, ev).ok)
 }
@@ -23,6 +28,10 @@ pub open spec fn fin<D: DiffHook>() -> Seq<Ev> {
     if D::observes_finish() { seq![Ev::Finish] } else { Seq::<Ev>::empty() }
 }
 
+pub open spec fn obs_now<D: DiffHook>(d: D) -> Obs<D::Error> {
+    Obs { trace: d.trace(), rely_st: d.rely_st(), failed: d.failed(), last_err: d.last_err(), relies: d.relies(), rely_rel: d.rely_rel(), accepts_replace: d.accepts_replace() }
+}
+
 /// what `replace` records: one Replace event (overriding hooks) or the default's Delete, Insert
 pub open spec fn replace_evs<D: DiffHook>(o: usize, ol: usize, n: usize, nl: usize) -> Seq<Ev> {
     if D::replace_is_atomic() { seq![Ev::Replace(o, ol, n, nl)] } else { seq![Ev::Delete(o, ol, n), Ev::Insert(o, n, nl)] }
@@ -41,6 +50,9 @@ pub trait DiffHook: Sized {
     /*@*/ spec fn observes_finish() -> bool;               // does `finish` leave a trace (false for the no-op default)
     /*@*/ spec fn replace_is_atomic() -> bool;             // `replace` records one Replace event (overriding hooks) / Delete+Insert (default)
     /*@*/ spec fn accepts_replace(&self) -> bool;          // may `replace` be called (false for the Replace adapter: outside the verified envelope)
+    /*@*/ #[verifier::prophetic]
+    /*@*/ spec fn fobs(&self) -> Obs<Self::Error>;         // prophecy: what the hook(s) borrowed inside this value will look like when the borrows end;
+    /*@*/                                                  // no call re-seats such a borrow, so it never changes (lets callers resolve `&mut` hooks stored in adapters)
 
     /// Called when lines with indices `old_index` (in the old version) and
     /// `new_index` (in the new version) start an section equal in both
@@ -48,6 +60,7 @@ pub trait DiffHook: Sized {
     fn equal(&mut self, old_index: usize, new_index: usize, len: usize) -> (res: Result<(), Self::Error>)
     /*@*/     requires hook_pre_c((*old(self)).failed(), (*old(self)).relies(), (*old(self)).rely_rel(), (*old(self)).rely_st(), Ev::Equal(old_index, new_index, len)),
     /*@*/     ensures hook_frame_c((*old(self)).relies(), (*final(self)).relies(), (*old(self)).rely_rel(), (*final(self)).rely_rel(), (*old(self)).accepts_replace(), (*final(self)).accepts_replace(), (*final(self)).failed(), (*final(self)).last_err(), res),
+    /*@*/         (*final(self)).fobs() == (*old(self)).fobs(),
     /*@*/         res.is_ok() ==> (*final(self)).trace() == (*old(self)).trace().push(Ev::Equal(old_index, new_index, len)),
     /*@*/         res.is_ok() ==> (*final(self)).rely_st() == step_rel((*old(self)).rely_rel(), (*old(self)).rely_st(), Ev::Equal(old_index, new_index, len)),
     ;
@@ -62,6 +75,7 @@ pub trait DiffHook: Sized {
     ) -> (res: Result<(), Self::Error>)
     /*@*/     requires hook_pre_c((*old(self)).failed(), (*old(self)).relies(), (*old(self)).rely_rel(), (*old(self)).rely_st(), Ev::Delete(old_index, old_len, new_index)),
     /*@*/     ensures hook_frame_c((*old(self)).relies(), (*final(self)).relies(), (*old(self)).rely_rel(), (*final(self)).rely_rel(), (*old(self)).accepts_replace(), (*final(self)).accepts_replace(), (*final(self)).failed(), (*final(self)).last_err(), res),
+    /*@*/         (*final(self)).fobs() == (*old(self)).fobs(),
     /*@*/         res.is_ok() ==> (*final(self)).trace() == (*old(self)).trace().push(Ev::Delete(old_index, old_len, new_index)),
     /*@*/         res.is_ok() ==> (*final(self)).rely_st() == step_rel((*old(self)).rely_rel(), (*old(self)).rely_st(), Ev::Delete(old_index, old_len, new_index)),
     ;
@@ -76,6 +90,7 @@ pub trait DiffHook: Sized {
     ) -> (res: Result<(), Self::Error>)
     /*@*/     requires hook_pre_c((*old(self)).failed(), (*old(self)).relies(), (*old(self)).rely_rel(), (*old(self)).rely_st(), Ev::Insert(old_index, new_index, new_len)),
     /*@*/     ensures hook_frame_c((*old(self)).relies(), (*final(self)).relies(), (*old(self)).rely_rel(), (*final(self)).rely_rel(), (*old(self)).accepts_replace(), (*final(self)).accepts_replace(), (*final(self)).failed(), (*final(self)).last_err(), res),
+    /*@*/         (*final(self)).fobs() == (*old(self)).fobs(),
     /*@*/         res.is_ok() ==> (*final(self)).trace() == (*old(self)).trace().push(Ev::Insert(old_index, new_index, new_len)),
     /*@*/         res.is_ok() ==> (*final(self)).rely_st() == step_rel((*old(self)).rely_rel(), (*old(self)).rely_st(), Ev::Insert(old_index, new_index, new_len)),
     ;
@@ -99,6 +114,7 @@ pub trait DiffHook: Sized {
     ) -> (res: Result<(), Self::Error>)
     /*@*/     requires hook_pre_c((*old(self)).failed(), (*old(self)).relies(), (*old(self)).rely_rel(), (*old(self)).rely_st(), Ev::Replace(old_index, old_len, new_index, new_len)), (*old(self)).accepts_replace(),
     /*@*/     ensures hook_frame_c((*old(self)).relies(), (*final(self)).relies(), (*old(self)).rely_rel(), (*final(self)).rely_rel(), (*old(self)).accepts_replace(), (*final(self)).accepts_replace(), (*final(self)).failed(), (*final(self)).last_err(), res),
+    /*@*/         (*final(self)).fobs() == (*old(self)).fobs(),
     /*@*/         res.is_ok() ==> (*final(self)).trace() == (if Self::replace_is_atomic() { (*old(self)).trace().push(Ev::Replace(old_index, old_len, new_index, new_len)) }
     /*@*/             else { (*old(self)).trace().push(Ev::Delete(old_index, old_len, new_index)).push(Ev::Insert(old_index, new_index, new_len)) }),
     /*@*/         res.is_ok() ==> (*final(self)).rely_st() == step_rel((*old(self)).rely_rel(), (*old(self)).rely_st(), Ev::Replace(old_index, old_len, new_index, new_len)),
@@ -109,6 +125,7 @@ pub trait DiffHook: Sized {
     fn finish(&mut self) -> (res: Result<(), Self::Error>)
     /*@*/     requires !(*old(self)).failed(), (*old(self)).relies() ==> wf((*old(self)).rely_st()),
     /*@*/     ensures hook_frame_c((*old(self)).relies(), (*final(self)).relies(), (*old(self)).rely_rel(), (*final(self)).rely_rel(), (*old(self)).accepts_replace(), (*final(self)).accepts_replace(), (*final(self)).failed(), (*final(self)).last_err(), res),
+    /*@*/         (*final(self)).fobs() == (*old(self)).fobs(),
     /*@*/         res.is_ok() ==> (*final(self)).trace() == (*old(self)).trace() + (if Self::observes_finish() { seq![Ev::Finish] } else { Seq::<Ev>::empty() }),
     /*@*/         res.is_ok() ==> (*final(self)).rely_st() == (if Self::observes_finish() { step_rel((*old(self)).rely_rel(), (*old(self)).rely_st(), Ev::Finish) } else { (*old(self)).rely_st() }),
     ;
@@ -127,6 +144,7 @@ impl<'a, D: DiffHook + 'a> DiffHook for &'a mut D {
     /*@*/ open spec fn last_err(&self) -> Option<Self::Error> { (**self).last_err() }
     /*@*/ open spec fn replace_is_atomic() -> bool { D::replace_is_atomic() }
     /*@*/ open spec fn accepts_replace(&self) -> bool { (**self).accepts_replace() }
+    /*@*/ #[verifier::prophetic] open spec fn fobs(&self) -> Obs<Self::Error> { obs_now(mut_ref_future(*self)) }
 
     #[inline(always)]
     fn equal(&mut self, old_index: usize, new_index: usize, len: usize) -> (res: Result<(), Self::Error>)
@@ -211,6 +229,7 @@ impl<D: DiffHook> DiffHook for NoFinishHook<D> {
     /*@*/ open spec fn last_err(&self) -> Option<Self::Error> { self.inner().last_err() }
     /*@*/ open spec fn replace_is_atomic() -> bool { D::replace_is_atomic() }
     /*@*/ open spec fn accepts_replace(&self) -> bool { self.inner().accepts_replace() }
+    /*@*/ #[verifier::prophetic] open spec fn fobs(&self) -> Obs<Self::Error> { self.inner().fobs() }
 
     #[inline(always)]
     fn equal(&mut self, old_index: usize, new_index: usize, len: usize) -> (res: Result<(), Self::Error>)
